@@ -766,6 +766,212 @@ def run (cmp : α → α → Ordering) : Store (List (α × β)) → List (Op α
 
 end Spec
 
+/-! ## arguments that are the tree's own objects; assignment from a map that is not a Tree; the odd-count constructor
+
+    `foreach (k in t)` hands out `Tree_Key(m, node)` — a pointer INTO a node — and `get(t, k)` returns `Tree_Val(m, node)`.
+    A program that updates a map while walking it passes these objects back: `set(t, k, v)` with `k` from the iteration,
+    `set(t, k, get(t, k))`.  `Tree_Set` on a present key runs `assign(Tree_Key(m, node), key); assign(Tree_Val(m, node), val);`
+    so the stored object is then assigned FROM ITSELF.  For `Int` and plain structs that copies the bytes onto themselves.
+    For a type whose `Assign` reallocates what it owns — `String_Assign`: `s->val = realloc(s->val, strlen(val) + 1);
+    strcpy(s->val, val);` with `val = c_str(obj)` — it is defined only because `String_Assign` returns first when
+    `val is s->val` (fix 744a45f; read from src/String.c on every run: `CelloGen.Tree.stringAssignGuardsSelf`).  Without
+    that test the `strcpy` reads the block `realloc` has just released (`none` below). -/
+
+/-- the object has a word that owns heap memory (a String: `char* val`), which its `Assign` reallocates -/
+def ownsHeap (ws : List Word) : Bool := ws.any (fun w => match w with | .ptr _ => true | _ => false)
+
+/-- `assign(x, x)` — the same object on both sides — is defined: always for objects without owned memory (`Int_Assign`,
+    `memcpy(self, obj, size)` onto itself); for a String iff `String_Assign` tests `val is s->val` before the `realloc` (`g`) -/
+def selfAssignDefined [Packed γ] (g : Bool) (x : γ) : Bool := g || !ownsHeap (Packed.words x)
+
+/-- a key argument: a key object of the caller, or the key object stored in the tree itself for a key (`Tree_Key(m, node)`,
+    what `foreach (k in t)` hands out) -/
+inductive KArg (α : Type) where
+  | val (k : α)
+  | own (k : α)
+
+/-- a value argument: a value object of the caller, or the value object `get(t, k)` returns (`Tree_Val(m, node)`) -/
+inductive VArg (α β : Type) where
+  | val (v : β)
+  | own (k : α)
+
+/-- the entry of the node a descent ends at: the stored key and the stored value -/
+def findKV (cmp : α → α → Ordering) : T α β → α → Option (α × β)
+  | .nil, _ => none
+  | .node _ l nk nv r, k =>
+    match cmp nk k with
+    | .eq => some (nk, nv)
+    | .lt => findKV cmp l k
+    | .gt => findKV cmp r k
+
+/-- the tree's own objects for a key: the node `Tree_Get` stops at -/
+def Tree.entry (cmp : α → α → Ordering) (m : Tree α β) (k : α) : Option (α × β) :=
+  findKV (orient CelloGen.Tree.getDescent cmp) m.root k
+
+/-- the object a key argument denotes, and the key of the node it lives in when it is the tree's own -/
+def Tree.keyArg (cmp : α → α → Ordering) (m : Tree α β) : KArg α → Option (α × Option α)
+  | .val k => some (k, none)
+  | .own k => (m.entry cmp k).map (fun e => (e.1, some e.1))
+
+/-- the object a value argument denotes (`none`: `get(t, k)` raises KeyError), and the key of the node it lives in -/
+def Tree.valArg (cmp : α → α → Ordering) (m : Tree α β) : VArg α β → Option (β × Option α)
+  | .val v => some (v, none)
+  | .own k => (m.entry cmp k).map (fun e => (e.2, some e.1))
+
+/-- `set(t, K, V)` where `K` / `V` may be the tree's own objects.
+    `none` = undefined behaviour (a String assigned from itself without the `val is s->val` test);
+    `.noobj` = the op names an own key object that does not exist (ill-formed op file);
+    `get(t, k)` for the value raises KeyError before `Tree_Set` is entered.
+    The node an argument lives in and the node `Tree_Set` stops at are the same node iff their keys compare equal (the keys of
+    a tree are pairwise different: `Valid`). -/
+def Tree.setArgs [Packed α] [Packed β] (g : Bool) (cmp : α → α → Ordering) (m : Tree α β) (ka : KArg α) (va : VArg α β) :
+    Option (Tree α β × Obs α β) :=
+  match m.keyArg cmp ka with
+  | none => some (m, .noobj)
+  | some (key, kHome) =>
+    match m.valArg cmp va with
+    | none => some (m, .err .KeyError)
+    | some (val, vHome) =>
+      -- the node the descent of `Tree_Set` stops at with this key, if any
+      let target := (findKV (orient CelloGen.Tree.setDescent cmp) m.root key).map (·.1)
+      let sameNode : Option α → Bool := fun home =>
+        match home, target with
+        | some a, some b => cmp b a = .eq
+        | _, _ => false
+      if (sameNode kHome && !selfAssignDefined g key) || (sameNode vHome && !selfAssignDefined g val) then none
+      else (m.set cmp key val).map (fun m' => (m', .done))
+
+/-- operations of the second layer: those of `Op`, and -/
+inductive AOp (α β : Type) where
+  | base (op : Op α β)
+  | setA (t : Nat) (ka : KArg α) (va : VArg α β)        -- `set(t, K, V)` with own objects
+  | getK (t : Nat) (k : α)                              -- `get(t, K)`, `K` = the tree's own key object for `k`
+  | memK (t : Nat) (k : α)
+  | remK (t : Nat) (k : α)                              -- `rem(t, K)`: the key argument lives in the node that is removed
+  | assignMap (t : Nat) (ks vs : Nat) (kvs : List (α × β))
+      -- `assign(t, obj)` for a map `obj` that is not a Tree (key type of size `ks`, value type of size `vs`, iterating the
+      -- keys of `kvs` in this order, `get(obj, key)` = the value beside it): `Tree_Clear`, the types and sizes taken over,
+      -- `Tree_Set(self, key, get(obj, key))` per key — what `Tree_New` does with the same pairs
+  | newOdd (t : Nat)
+      -- `new(Tree, K, V, k1, v1, …, kn)`: an odd number of arguments; `Tree_New` raises FormatError (after it has set the
+      -- types, before the first `Tree_Set`), no tree comes into being and `t` keeps what it named
+
+/-- one operation of the second layer; `g` = `String_Assign` tests `val is s->val` (`CelloGen.Tree.stringAssignGuardsSelf`).
+    Wherever the operation went as far as looking at the tree `t`, the store entry is written back (`put`). -/
+def stepA [Packed α] [Packed β] (g : Bool) (cmp : α → α → Ordering) (st : Store (Tree α β)) :
+    AOp α β → Option (Store (Tree α β) × Obs α β)
+  | .base op => step cmp st op
+  | .setA t ka va =>
+    match st.get? t with
+    | none => some (st, .noobj)
+    | some m =>
+      (m.setArgs g cmp ka va).map (fun r => (st.put t r.1, r.2))
+  | .getK t k =>
+    match st.get? t with
+    | none => some (st, .noobj)
+    | some m =>
+      match m.entry cmp k with
+      | none => some (st, .noobj)
+      | some e => step cmp st (.get t e.1)
+  | .memK t k =>
+    match st.get? t with
+    | none => some (st, .noobj)
+    | some m =>
+      match m.entry cmp k with
+      | none => some (st, .noobj)
+      | some e => step cmp st (.mem t e.1)
+  | .remK t k =>
+    match st.get? t with
+    | none => some (st, .noobj)
+    | some m =>
+      match m.entry cmp k with
+      | none => some (st.put t m, .noobj)
+      | some e => step cmp st (.rem t e.1)
+  | .assignMap t ks vs kvs =>
+    match st.get? t with
+    | none => some (st, .noobj)
+    | some _ => step cmp st (.new t ks vs kvs)
+  | .newOdd _ => some (st, .err .FormatError)
+
+def runA [Packed α] [Packed β] (g : Bool) (cmp : α → α → Ordering) :
+    Store (Tree α β) → List (AOp α β) → Option (Store (Tree α β) × List (Obs α β))
+  | st, [] => some (st, [])
+  | st, op :: ops =>
+    match stepA g cmp st op with
+    | none => none
+    | some (st', o) =>
+      match runA g cmp st' ops with
+      | none => none
+      | some (st'', os) => some (st'', o :: os)
+
+namespace Spec
+
+/-- the binding of the map whose key compares equal -/
+def getKV (cmp : α → α → Ordering) (k : α) : List (α × β) → Option (α × β)
+  | [] => none
+  | (k', v') :: l => if cmp k' k = .eq then some (k', v') else getKV cmp k l
+
+/-- an own key / value object is the key / value the map holds -/
+def keyArg (cmp : α → α → Ordering) (l : List (α × β)) : KArg α → Option α
+  | .val k => some k
+  | .own k => (getKV cmp k l).map Prod.fst
+
+def valArg (cmp : α → α → Ordering) (l : List (α × β)) : VArg α β → Option β
+  | .val v => some v
+  | .own k => (getKV cmp k l).map Prod.snd
+
+/-- `set(t, K, V)` on the map -/
+def setArgs (cmp : α → α → Ordering) (ka : KArg α) (va : VArg α β) (l : List (α × β)) : List (α × β) × Obs α β :=
+  match keyArg cmp l ka with
+  | none => (l, .noobj)
+  | some key =>
+    match valArg cmp l va with
+    | none => (l, .err .KeyError)
+    | some val => (set cmp key val l, .done)
+
+/-- the second layer on the specification -/
+def stepA (cmp : α → α → Ordering) (st : Store (List (α × β))) : AOp α β → Store (List (α × β)) × Obs α β
+  | .base op => step cmp st op
+  | .setA t ka va =>
+    match st.get? t with
+    | none => (st, .noobj)
+    | some l => let r := setArgs cmp ka va l; (st.put t r.1, r.2)
+  | .getK t k =>
+    match st.get? t with
+    | none => (st, .noobj)
+    | some l =>
+      match getKV cmp k l with
+      | none => (st, .noobj)
+      | some e => step cmp st (.get t e.1)
+  | .memK t k =>
+    match st.get? t with
+    | none => (st, .noobj)
+    | some l =>
+      match getKV cmp k l with
+      | none => (st, .noobj)
+      | some e => step cmp st (.mem t e.1)
+  | .remK t k =>
+    match st.get? t with
+    | none => (st, .noobj)
+    | some l =>
+      match getKV cmp k l with
+      | none => (st.put t l, .noobj)
+      | some e => step cmp st (.rem t e.1)
+  | .assignMap t ks vs kvs =>
+    match st.get? t with
+    | none => (st, .noobj)
+    | some _ => step cmp st (.new t ks vs kvs)
+  | .newOdd _ => (st, .err .FormatError)
+
+def runA (cmp : α → α → Ordering) : Store (List (α × β)) → List (AOp α β) → Store (List (α × β)) × List (Obs α β)
+  | st, [] => (st, [])
+  | st, op :: ops =>
+    let r := stepA cmp st op
+    let r' := runA cmp r.1 ops
+    (r'.1, r.2 :: r'.2)
+
+end Spec
+
 /-! ## keys and values of the op files -/
 
 /-- keys: `Int` (8 bytes), `String` (8 bytes: a pointer) or a plain struct of three or more `int64_t` fields with a
@@ -804,11 +1010,15 @@ instance : Packed Key where
     | .int a :: .int b :: ws => (intsOf ws).map (Key.w a b)
     | _ => none
 
-/-- values: `Int` (one word) or a plain struct of `int64_t` fields (probe types `V3`, `V5` of the harness: 24 / 40 bytes) -/
-abbrev Val := List Int
+/-- values: `Int` (one word), `String` (one word: a pointer, owned) or a plain struct of `int64_t` fields (probe types `V3`,
+    `V5` of the harness: 24 / 40 bytes) — the same byte representations as the key kinds, so the type is shared:
+    `.i n`, `.s x`, `.w a b [c]` (24 bytes), `.w a b [c, d, e]` (40 bytes) -/
+abbrev Val := Key
 
-instance : Packed Val where
-  words v := v.map .int
-  ofWords := intsOf
+/-- a plain-data value from its words -/
+def Val.ofInts : List Int → Val
+  | [n] => .i n
+  | a :: b :: r => .w a b r
+  | [] => .i 0
 
 end Cello.RB
